@@ -12,6 +12,7 @@ import (
 	"go.opentelemetry.io/collector/exporter/exporterhelper"
 	"go.opentelemetry.io/collector/exporter/exporterhelper/xexporterhelper"
 	"go.opentelemetry.io/collector/exporter/xexporter"
+	"go.opentelemetry.io/collector/pdata/pcommon"
 	"go.opentelemetry.io/collector/pdata/plog"
 	"go.opentelemetry.io/collector/pdata/pmetric"
 	"go.opentelemetry.io/collector/pdata/pprofile"
@@ -155,9 +156,39 @@ var metricsAdapter = &sigAdapter{
 		return metricsExp{e}, nil
 	},
 	partial: func(p any, keep map[string]bool) (error, int) {
-		// metrics: name the whole payload as undelivered (subset selection per data point type is not needed here)
+		// the undelivered subset: the data points named in keep, of whatever type, inside their metric / scope / resource
 		d := pmetric.NewMetrics()
 		p.(pmetric.Metrics).CopyTo(d)
+		drop := func(attrs pcommon.Map) bool {
+			v, ok := attrs.Get(gen.IDKey)
+			return !ok || !keep[v.Str()]
+		}
+		d.ResourceMetrics().RemoveIf(func(rm pmetric.ResourceMetrics) bool {
+			rm.ScopeMetrics().RemoveIf(func(sm pmetric.ScopeMetrics) bool {
+				sm.Metrics().RemoveIf(func(m pmetric.Metric) bool {
+					switch m.Type() {
+					case pmetric.MetricTypeGauge:
+						m.Gauge().DataPoints().RemoveIf(func(dp pmetric.NumberDataPoint) bool { return drop(dp.Attributes()) })
+						return m.Gauge().DataPoints().Len() == 0
+					case pmetric.MetricTypeSum:
+						m.Sum().DataPoints().RemoveIf(func(dp pmetric.NumberDataPoint) bool { return drop(dp.Attributes()) })
+						return m.Sum().DataPoints().Len() == 0
+					case pmetric.MetricTypeHistogram:
+						m.Histogram().DataPoints().RemoveIf(func(dp pmetric.HistogramDataPoint) bool { return drop(dp.Attributes()) })
+						return m.Histogram().DataPoints().Len() == 0
+					case pmetric.MetricTypeExponentialHistogram:
+						m.ExponentialHistogram().DataPoints().RemoveIf(func(dp pmetric.ExponentialHistogramDataPoint) bool { return drop(dp.Attributes()) })
+						return m.ExponentialHistogram().DataPoints().Len() == 0
+					case pmetric.MetricTypeSummary:
+						m.Summary().DataPoints().RemoveIf(func(dp pmetric.SummaryDataPoint) bool { return drop(dp.Attributes()) })
+						return m.Summary().DataPoints().Len() == 0
+					}
+					return true
+				})
+				return sm.Metrics().Len() == 0
+			})
+			return rm.ScopeMetrics().Len() == 0
+		})
 		return consumererror.NewMetrics(errTransient, d), d.DataPointCount()
 	},
 }
